@@ -29,7 +29,7 @@ func runC16(x *Ctx) {
 	x.C.Rule("C16.R1", "emitted codes ⊆ parsed codes ⊆ unmarshaller table", 3)
 	x.C.Rule("C16.R2", "byte layout agreement between Parse, FromPubKey and PubKey", 3)
 	x.C.Rule("C16.R3", "Parse guards; no other cause of rejection", 6)
-	x.C.Rule("C16.R4", "PubKey only accepts the canonical identifier of the key; unmarshallers refuse only what the library refuses", 4)
+	x.C.Rule("C16.R4", "PubKey only accepts the canonical identifier of the key; unmarshallers refuse only what the library refuses; ToPubKey goes through PubKey", 5)
 	x.C.Rule("C16.R5", "nil result of UnmarshalCompressed is rejected", 1)
 	x.C.Rule("C16.R6", "point coordinates are serialised with a fixed width", 1)
 
@@ -160,6 +160,31 @@ func runC16(x *Ctx) {
 		}
 		x.C.Obl("C16.R3", "no-other-rejection", x.pos(parse), "Parse refuses a string only for: missing did:key: prefix, multibase error, not base58btc, varint error, multicodec not whitelisted",
 			err == nil && len(unk) == 0 && len(bad) == 0 && len(fsel) >= 5, "rejection path(s) with another cause:\n"+renderPaths(bad, 3))
+	}
+
+	// ---- the sibling entry point ToPubKey(text) resolves through the same door: Parse, then DID.PubKey (with its
+	// canonical-identifier check), nothing of its own
+	if tp := x.fn("C16.R4", "did.ToPubKey"); tp != nil {
+		okT, nT := true, 0
+		dT := ""
+		for _, p := range x.pathsQuiet(tp) {
+			if p.End != paths.EndReturn || len(p.Results()) == 0 {
+				continue
+			}
+			if o, _ := p.ErrorOutcome(); o == paths.Failure {
+				continue
+			}
+			nT++
+			r := p.Results()[0]
+			if r.Op == "extract" && len(r.Args) == 1 {
+				r = r.Args[0]
+			}
+			if r.Op != "call" || r.Name != "(did.DID).PubKey" || len(r.Args) != 1 || r.Args[0].String() != "call[did.Parse](arg0)#0" {
+				okT = false
+				dT += "ToPubKey returns " + r.String() + ", not Parse(text).PubKey(): the key of a non-canonical identifier can be handed out\n"
+			}
+		}
+		x.C.Obl("C16.R4", "ToPubKey-through-PubKey", x.pos(tp), "ToPubKey(text) is Parse(text) followed by DID.PubKey()", okT && nT > 0, dedupLines(dT))
 	}
 
 	// ---- closed world for the key unmarshallers of the package (functions of type func([]byte) (PubKey, error),
